@@ -19,13 +19,14 @@ import numpy as np
 from vlib import core
 from harness import mps_common as mc
 from harness import mps_extra as mx
+from harness import c09_ext as cx
 from harness.C08 import Dense, plain_ops, jw_ops
 
 sys.path.insert(0, str(core.ROOT / 'tools'))
 
 PROP = 'C09'
-MODEL_MODULES = ['TenpyModel.Util.J', 'TenpyModel.MPS.Eval']
-PROPS_MODULES = ['TenpyModel.C09.Props', 'TenpyModel.C09.Props2']
+MODEL_MODULES = ['TenpyModel.Util.J', 'TenpyModel.MPS.Eval', 'TenpyModel.C09.ExtPermute', 'TenpyModel.C09.ExtTerm']
+PROPS_MODULES = ['TenpyModel.C09.Props', 'TenpyModel.C09.Props2', 'TenpyModel.C09.PropsExt']
 LEVEL = 'proof'
 BUDGET = {'quick': 200, 'thorough': 1500}
 RULE = ('states from from_full / random block-sparse tensors + canonical_form / singlets on L=2..7 over all site kinds '
@@ -35,12 +36,20 @@ RULE = ('states from from_full / random block-sparse tensors + canonical_form / 
         'add (different bond dimensions, complex prefactors), compress_svd / compress, enlarge_chi, group_sites + '
         'group_split, spatial_inversion (twice), convert_form; infinite unit cells of 1-3 sites in random forms: '
         'roll_mps_unit_cell (any shift), enlarge_mps_unit_cell, spatial_inversion compared on windows. '
-        'Non-trivial: some bond dimension > 1 and at least one transformation applied; distinct by content hash.')
+        'Non-trivial: some bond dimension > 1 and at least one transformation applied; distinct by content hash. '
+        'Extension part (harness/c09_ext.py, own PRNG stream "ext", driver C09ext): permute_sites with the swap_sites '
+        'calls recorded (random / near-sorted permutations, too short / too long / repeated entries) vs the modelled loop '
+        'and the dense fermionic permutation; _term_to_ops_list and apply_local_term(canonicalize=False) with the name '
+        'lists handed to multiply_operators, the JW-string call and the set_B calls recorded (1-4 entries, composite '
+        'names, i_offset, negative / out-of-range indices, empty term, autoJW on/off, JW_from_right None/True/False, '
+        'infinite unit cells) vs the model and the dense operator product with explicit JW strings.')
 TRUSTED = ['Lean 4.33 kernel; axioms of every C09_* theorem ⊆ {propext, Classical.choice, Quot.sound}',
            'model lean/TenpyModel/MPS/{Chain,Basic,Transform}.lean tied to tenpy/networks/mps.py by this run',
            'dense oracle: numpy (kron operators from the sites\' operator tables, explicit JW strings, axis permutations '
            'with fermionic signs from Site.JW_exponent)',
-           'serialiser harness/mps_common.py, driver lean/drivers/C07.lean']
+           'serialiser harness/mps_common.py, drivers lean/drivers/C07.lean, lean/drivers/C09ext.lean',
+           'extension part: recorders wrapped around swap_sites / set_B / apply_JW_string_left_of_virt_leg / '
+           'Site.multiply_operators (they call the originals)']
 ASSUMPTIONS = ['SVD-based steps (swap_sites with truncation, compress, group_split with truncation) are only checked '
                'against the reported truncation error: |psi - psi\'|^2 <= n_bonds * eps_reported * (1 + eps) + 1e-10',
                'canonical_form after non-unitary operators is covered by its post-conditions (state, norm, norm_test)']
@@ -143,6 +152,8 @@ def dense_permute(vec, sites, perm):
 
 
 def eval_case(case):
+    if case['kind'] == 'ext':
+        return cx.eval_ext(case)
     if case['kind'] == 'extra':
         return mx.eval_c09(case)
     if case['kind'] == 'inf':
@@ -642,12 +653,18 @@ def run(ctx):
     res.extra['anchor_coverage_note'] = ANCHOR_COVERAGE_NOTE
     rng = ctx.sub_rng('cases')
     n = 200 if ctx.quick else 5000
-    cases = corpus_cases() + gen_cases(rng, n, ctx.quick)
+    cases = [c for c in corpus_cases() if c.get('kind') != 'ext'] + gen_cases(rng, n, ctx.quick)
     xr = ctx.sub_rng('extra')
     cases += mx.gen_extras(xr, mx.C09_SUBS, 75 if ctx.quick else 1125)
     results, derrs = mc.run_cases(ctx, PROP, 'harness.C09', 'eval_case', cases,
-                                  budget_s=ctx.budget_s * 0.8 if not ctx.quick else None)
-    return mc.fold_results(res, results, derrs, PROP)
+                                  budget_s=ctx.budget_s * 0.65 if not ctx.quick else None)
+    # extension part: newly modelled code (own PRNG stream, own driver)
+    er = ctx.sub_rng('ext')
+    ecases = [c for c in corpus_cases() if c.get('kind') == 'ext'] + cx.gen_cases(er, 150 if ctx.quick else 3000, ctx.quick)
+    eres, ederrs = mc.run_cases(ctx, PROP, 'harness.c09_ext', 'eval_ext', ecases, driver='C09ext',
+                                budget_s=ctx.budget_s * 0.2 if not ctx.quick else None)
+    res.extra['ext_cases'] = len(eres)
+    return mc.fold_results(res, results + eres, derrs + ederrs, PROP)
 
 
 def corpus_cases():
@@ -666,9 +683,11 @@ def eval_oracle_only(case):
 def search(ctx, reasons):
     res = core.Result()
     rng = ctx.sub_rng('search')
-    cases = corpus_cases() + gen_cases(rng, 300 if ctx.quick else 4000, ctx.quick)
+    cases = [c for c in corpus_cases() if c.get('kind') != 'ext'] + gen_cases(rng, 300 if ctx.quick else 4000, ctx.quick)
     results, _ = mc.run_cases(ctx, PROP, 'harness.C09', 'eval_oracle_only', cases)
-    for r in results:
+    eres, _ = mc.run_cases(ctx, PROP, 'harness.c09_ext', 'eval_ext_oracle_only',
+                           cx.gen_cases(ctx.sub_rng('search-ext'), 200 if ctx.quick else 3000, ctx.quick))
+    for r in results + eres:
         if r['skip']:
             continue
         res.note_case(r['case'], r['nontrivial'])
@@ -682,5 +701,6 @@ def replay(ctx, payload):
     case = payload.get('case') or {}
     if not case:
         return run(ctx)
-    results, derrs = mc.run_cases(ctx, PROP, 'harness.C09', 'eval_case', [case], procs=1)
+    results, derrs = mc.run_cases(ctx, PROP, 'harness.C09', 'eval_case', [case], procs=1,
+                                  driver='C09ext' if case.get('kind') == 'ext' else 'C07')
     return mc.fold_results(res, results, derrs, PROP)
